@@ -10,11 +10,12 @@ from __future__ import annotations
 
 import datetime as _dt
 import math
+import types
 
 import numpy as np
 import z3
 
-from symx.core import PI_F, TWOPI_F, SBool, SInt, SReal, Unsupported, assume, explore, mfloat, mval, refute, rv
+from symx.core import PI_F, TWOPI_F, SBool, SInt, SReal, Unsupported, assume, explore, mfloat, mval, real, refute, rv
 from symx.runner import Ob
 from symx.stubs import shadow
 
@@ -1218,6 +1219,64 @@ WHENS_QUICK = [_dt.datetime(2021, 3, 30, 16, 0, 1), _dt.datetime(2019, 2, 1, 0, 
 WHENS_THOROUGH = WHENS_QUICK + [_dt.datetime(2020, 2, 29, 23, 59, 59), _dt.datetime(2024, 12, 31, 12, 30, 37)]
 
 KINDS = [("radar", False), ("advradar", True), ("optical", False), ("optical", True)]
+# ------------------------------------------------------------------------------------------------
+# noise shape: what "within the sensor's stated noise" means algebraically
+# ------------------------------------------------------------------------------------------------
+def replay_noise(d):
+    import numpy as np
+    from resonaate.physics.measurements import Measurement
+
+    R = np.array(d["R"], dtype=float)
+    m = Measurement.fromMeasurementLabels(["azimuth_rad", "elevation_rad"], R)
+    S = np.asarray(m._sqrt_noise_covar, dtype=float)
+    err = np.abs(S @ S.T - R).max() if np.all(np.isfinite(S)) else float("inf")
+    return (not np.isfinite(err)) or err > 1e-9 * max(1.0, np.abs(R).max()), {"S": S.tolist(), "S S^T": (S @ S.T).tolist(), "R": R.tolist(), "max_error": float(err)}
+
+
+def o_noise(rep):
+    """The noise added to a measurement is S z with z the generator's standard-normal draw and S S^T = R (the stated covariance),
+    for every symmetric positive-definite R - correlated components included."""
+    import numpy as np
+    import z3
+    from resonaate.physics import measurements as ME
+    from symx.core import eq_arrays, marray, reals, single_path
+    from symx.stubs import sym_array
+
+    with single_path(recip=False) as p:
+        L = np.empty((2, 2), dtype=object)
+        l00, l10, l11 = real("l00"), real("l10"), real("l11")
+        assume(l00.t > 0, l11.t > 0)
+        L[0, 0], L[0, 1], L[1, 0], L[1, 1] = l00, SReal(0), l10, l11
+        R = L.dot(L.T)
+        z = reals("z", 2)
+        calls = []
+
+        def sqrtm_contract(M):
+            """scipy.linalg.sqrtm -> the principal square root: a symmetric X with X X = M (contract)."""
+            X = np.empty((2, 2), dtype=object)
+            a, b, c = real("sq_a"), real("sq_b"), real("sq_c")
+            X[0, 0], X[0, 1], X[1, 0], X[1, 1] = a, b, b, c
+            XX = X.dot(X)
+            for i in range(2):
+                for j in range(2):
+                    assume(XX[i, j].t == M[i, j].t)
+            calls.append(M)
+            return X
+
+        rnd = types.SimpleNamespace(randn=lambda n: z)
+        with shadow(ME, sqrtm=sqrtm_contract, real=lambda x: x, isPD=lambda M: True, random=rnd, zeros_like=lambda M: np.zeros(np.shape(M))):
+            m = ME.Measurement.fromMeasurementLabels(["azimuth_rad", "elevation_rad"], R)
+            S = np.asarray(m._sqrt_noise_covar, dtype=object)
+            noise = m.noise
+        cons = p.constraints()
+        inputs = lambda mm: {"R": marray(mm, R).tolist()}  # noqa: E731
+        rep.reachable("noise-assumptions", cons + [l10.t != 0])
+        rep.prove("noise-covariance", eq_arrays(S.dot(S.T), R), cons, linearize=True, timeout_ms=60000, inputs=inputs, replay=replay_noise,
+                  sample="stored noise transform S satisfies S S^T = R for every symmetric positive-definite R (off-diagonal terms included)")
+        rep.prove("noise-is-S-z", eq_arrays(np.asarray(noise, dtype=object), S.dot(z)), cons, sample="noise vector = S z with z the generator's standard-normal draw")
+
+
+
 REPLAYS = {}
 
 
@@ -1232,6 +1291,7 @@ def obligations(tier):
         obs.append(Ob(name, fn, desc, t))
         REPLAYS[name] = rp
 
+    add("noise-covariance", o_noise, "noise added to a measurement is S z with S S^T = R", 120, rp=replay_noise)
     nbg = 1 if tier == "quick" else 2
     for kind, space in KINDS:
         sp = Spec(kind, space)
